@@ -133,7 +133,21 @@ def run_harnesses(unit, scratch, harnesses, jobs=8, log=None, extra_flags=()):
                                "location": "%s:%s" % (c.get("location", {}).get("file"), c.get("location", {}).get("line")),
                                "status": c.get("status")} for c in failed][:12]
         status = res.get("status")
-        if status == "Success":
+        if status == "Success" and h_flag(harnesses, key, "covers_must_be_unsat"):
+            # "rejection" obligations: the harness is #[kani::should_panic] (the documented panic
+            # must exist) and every cover!() marks a point that must NOT be reachable (the call
+            # returned although it had to reject): a satisfied cover is the violation.
+            if r["covers_satisfied"] > 0:
+                r["status"] = "failed"
+                sat = [c for c in covers if c.get("status") == "Satisfied"]
+                r["reason"] = "reached a point that must be unreachable: " + " | ".join((c.get("description") or "") for c in sat)[:400]
+                r["checks_failed"] = [{"description": c.get("description"), "category": "cover", "function": c.get("function"),
+                                       "location": "%s:%s" % (c.get("location", {}).get("file"), c.get("location", {}).get("line")),
+                                       "status": "Satisfied"} for c in sat][:6]
+            else:
+                r["status"] = "ok"
+                r["reason"] = ""
+        elif status == "Success":
             r["status"] = "ok"
             r["reason"] = ""
             # vacuity: a harness with cover!() statements must satisfy all of them
